@@ -12,6 +12,7 @@ struct WireEvt {
     int seq = 0; int conn = -1; bool c2b = true; int64_t t = 0;
     ref::Packet pkt; std::string raw; bool malformed = false; std::string why;
     bool raw_hostile = false;
+    uint64_t b2c_end = 0;      // broker->client events: cumulative number of bytes emitted on this connection up to the end of this packet
 };
 
 struct OutMsg {            // broker -> client application message
@@ -43,6 +44,7 @@ struct ConnState {
     int64_t connack_t = -1;
     bool session_present_sent = false;
     ref::Props connack_props_sent;
+    uint64_t emitted = 0;
 };
 
 enum Behaviour { B_NORMAL = 0, B_NOREPLY = 1, B_DELAY = 2 };
